@@ -105,6 +105,12 @@ func oddProfile(class string) *profile.Profile {
 		p.Sample[1].Value = []int64{math.MaxInt64, math.MinInt64}
 		p.Sample[1].NumLabel = map[string][]int64{"bytes": {math.MinInt64, math.MaxInt64}}
 		p.Sample[1].NumUnit = map[string][]string{"bytes": {"bytes", "bytes"}}
+	case "partialunits":
+		// several numeric values under one key of which only an earlier one has a unit
+		p.Sample[1].NumLabel = map[string][]int64{"bytes": {16, 32, 64}}
+		p.Sample[1].NumUnit = map[string][]string{"bytes": {"kilobytes", "", ""}}
+		p.Sample[0].NumLabel = map[string][]int64{"latency": {5, 7}}
+		p.Sample[0].NumUnit = map[string][]string{"latency": {"", "ms"}}
 	case "zerovalues":
 		for _, s := range p.Sample {
 			for i := range s.Value {
